@@ -1,0 +1,18 @@
+//go:build verif
+
+// Contracts for the gocv verifier (comment-only file; see /verif/DESIGN.md §4).
+package transport
+
+//@ func (t *PipelineTransport) ExchangeContext
+//@   nobody
+//@   log pipelineExchange
+//@   modifies *
+//@   ensures (result_1 == nil) == (result_0 != nil)
+//@   ensures result_1 == nil ==> len(*result_0) >= 12
+
+//@ func (t *ReuseConnTransport) ExchangeContext
+//@   nobody
+//@   log reuseExchange
+//@   modifies *
+//@   ensures (result_1 == nil) == (result_0 != nil)
+//@   ensures result_1 == nil ==> len(*result_0) >= 12
